@@ -340,23 +340,32 @@ func produce(what string) ([]byte, error) {
 		}
 		iv, _ := c.LoadStoredData("IV")
 		return append(iv, c.GetMainAccount().PrivateKey...), nil
-	case "walletadd": // Client.CreateAccount on an existing keystore (`wallet add`): a fresh key next to a fixed main account
+	case "walletadd": // account.Add on an EXISTING keystore (`wallet add`): the added account's private key
+		// the keystore itself is made from a fixed stream (not part of this use); only Add runs on the reader under test
 		ksSeq++
 		p := filepath.Join(tmp(), fmt.Sprintf("keystore%d.dat", ksSeq))
 		os.Remove(p)
-		main, err := account.NewAccountWithPrivateKey(key[:])
+		under := crand.Reader
+		crand.Reader = constReader{0x11}
+		base, err := account.Create(p, []byte("pw"))
+		crand.Reader = under
 		if err != nil {
 			return nil, err
 		}
-		c, err := account.CreateFromAccount(p, []byte("pw"), main)
+		mainKey := append([]byte(nil), base.GetMainAccount().PrivateKey...)
+		if _, err := account.Add(p, []byte("pw")); err != nil {
+			return nil, err
+		}
+		c, err := account.Open(p, []byte("pw"))
 		if err != nil {
 			return nil, err
 		}
-		a, err := c.CreateAccount()
-		if err != nil {
-			return nil, err
+		for _, a := range c.GetAccounts() {
+			if len(a.PrivateKey) > 0 && !bytes.Equal(a.PrivateKey, mainKey) {
+				return a.PrivateKey, nil
+			}
 		}
-		return a.PrivateKey, nil
+		return nil, errors.New("added account not found")
 	case "signdigest": // crypto.SignDigest (`wallet signdigest`)
 		sig, err := crypto.SignDigest(key[:], key[:])
 		if err != nil {
@@ -431,7 +440,7 @@ func ecdsaPub(priv []byte) *crypto.PublicKey {
 
 // minimum number of bytes of the OS source one use must consume
 var minEntropy = map[string]int{"nonce": 32, "keygen": 32, "ecdsa": 32, "ecies": 48, "keystore": 48,
-	"newaccount": 32, "walletcreate": 80, "walletadd": 80, "accountsign": 32, "txsign": 32,
+	"newaccount": 32, "walletcreate": 80, "walletadd": 32, "accountsign": 32, "txsign": 32,
 	"dposproposal": 32, "dposvote": 32, "dpossign": 32, "dpostx": 32, "signdigest": 32, "accountsigndigest": 32}
 
 var producers = []string{"nonce", "keygen", "ecdsa", "ecies", "keystore", "newaccount", "walletcreate", "walletadd",
